@@ -143,7 +143,7 @@ def case_s(draw):
     return {
         "epochs": epochs,
         "variants": [draw(variant_s(epochs)) for _ in range(3)],
-        "schema": {"dyn_glob": dyn_glob, "t_vector": draw(st.booleans()), "g_sortable": draw(st.booleans()),
+        "schema": {"dyn_glob": dyn_glob, "dyn_unstored": draw(st.booleans()), "t_vector": draw(st.booleans()), "g_sortable": draw(st.booleans()),
                    "n_sortable": draw(st.booleans()), "t_boost": draw(st.sampled_from([1.0, 2.0]))},
         "store": draw(st.sampled_from(["ram", "file"])),
         "remove_field": draw(st.booleans()),
